@@ -1,6 +1,7 @@
-"""C03 (thresholds and Wait durations): method generator tuned for thresholds / Base changes / Waits,
-an interpreter-level harness with the default 0.1 s tick interval, and the property oracle over the
-real Engine (independent of the Lean model).
+"""C03 (thresholds and Wait durations): method generator tuned for thresholds / Base changes (time, volume and
+column-volume units) / Waits, an interpreter-level harness with the default 0.1 s tick interval that feeds the
+model exactly the doubles the code compares, and the property oracle over the real Engine (UOD with totalizer,
+column volume and accumulator tags; independent of the Lean model).
 """
 from __future__ import annotations
 
@@ -451,48 +452,17 @@ def _pred_done(snap, n_id) -> bool:
 
 # ---- the engine with a totalizer, a column volume and the accumulator tags
 
-def make_uod_c03(exec_log: list):
-    from harness.engine_run import COND_TAGS, UOD_COMMANDS
+def _uod_extra(b):
     from openpectus.lang.exec.tags import Tag
-    from openpectus.lang.exec.uod import UodBuilder
-
-    def make_exec(name: str, iterations: int):
-        def exec_fn(cmd, **kvargs):
-            exec_log.append(("exec", name))
-            cmd._verif_iter = getattr(cmd, "_verif_iter", 0) + 1
-            if cmd._verif_iter >= iterations:
-                cmd.set_complete()
-        return exec_fn
-
-    b = (UodBuilder().with_instrument("VerifUodC03").with_author("v", "v@example.org").with_filename(__file__)
-         .with_hardware_none().with_location("loc"))
-    for t in COND_TAGS:
-        b = b.with_tag(Tag(name=t, value=0))
     b = b.with_tag(Tag(name="Totalizer", value=0.0, unit="L")).with_tag(Tag(name="ColVol", value=2.0, unit="L"))
-    b = b.with_accumulated_volume("Totalizer").with_accumulated_cv("ColVol", "Totalizer")
-    for name, it in UOD_COMMANDS.items():
-        b = b.with_command(name=name, exec_fn=make_exec(name, it),
-                           init_fn=(lambda n: (lambda cmd: exec_log.append(("init", n))))(name),
-                           finalize_fn=(lambda n: (lambda cmd: exec_log.append(("final", n))))(name))
-    b = b.with_command_overlap(["CmdB", "CmdC"])
-    return b.build()
+    return b.with_accumulated_volume("Totalizer").with_accumulated_cv("ColVol", "Totalizer")
 
 
 def engine_run_c03(pcode: str, dt: float):
-    """harness.engine_run.EngineRun on a UOD that also has `Totalizer` [L], `ColVol` = 2 L and the accumulated /
-    block volume and CV tags (base units L, mL, CV)."""
-    import harness.engine_run as ER
-
-    class Run(ER.EngineRun):
-        def __init__(self, pcode, dt):
-            orig = ER.make_uod
-            ER.make_uod = lambda log, overlap=True: make_uod_c03(log)
-            try:
-                super().__init__(pcode, dt=dt)
-            finally:
-                ER.make_uod = orig
-
-    return Run(pcode, dt)
+    """harness.engine_run.EngineRun on the shared test UOD extended by `Totalizer` [L], `ColVol` = 2 L and the
+    accumulated / block volume and CV tags (base units L, mL, CV)."""
+    from harness.engine_run import EngineRun
+    return EngineRun(pcode, dt=dt, uod_extra=_uod_extra)
 
 
 def _need(obj, attr: str):
